@@ -77,6 +77,8 @@ pub fn build(inst: Inst, op_leaf: u32) -> Scen {
     set_raw(4, i1, if kani::any() { any_leaf() } else { 0 });
     set_raw(1, j3, if inst.ix[1] % 2 == 0 { 0x0000_0009_0000_0000 | P | PS | U } else { 0 });
     set_raw(0, j4, 0);
+    // the recursive slot (used by the RecursivePageTable instances; an ordinary present entry otherwise)
+    set_raw(0, RECURSIVE_INDEX, table_phys(0) | P | W);
     // ---- which tables are part of the hierarchy (the others may be handed out by the allocator)
     let l1 = c4 == LINK;
     let l2 = l1 && c3 == LINK;
@@ -151,6 +153,12 @@ pub fn pre_path(a: u64) -> PrePath {
     p
 }
 
+/// recursive index of the RecursivePageTable instances (no instance uses it as a p4 index of a page)
+pub const RECURSIVE_INDEX: usize = 300;
+pub fn rmapper() -> RecursivePageTable<'static> {
+    unsafe { RecursivePageTable::new_unchecked(&mut *core::ptr::addr_of_mut!(POOL[0]), crate::structures::paging::PageTableIndex::new(RECURSIVE_INDEX as u16)) }
+}
+
 pub fn mapper() -> MappedPageTable<'static, PoolMap> {
     unsafe { MappedPageTable::new(&mut *core::ptr::addr_of_mut!(POOL[0]), PoolMap) }
 }
@@ -172,7 +180,10 @@ pub fn decode_translate(r: TranslateResult) -> (u8, u64, u64) {
 }
 
 /// translate / translate_addr / translate_page agree with the hardware walk of the current memory.
-pub fn check_translate_agrees(m: &MappedPageTable<'static, PoolMap>, a: u64) {
+pub fn check_translate_agrees<M>(m: &M, a: u64)
+where
+    M: Translate + Mapper<Size4KiB> + Mapper<Size2MiB> + Mapper<Size1GiB>,
+{
     let w = hw_walk(a);
     vp!(C01, w.kind != 9, "the hierarchy is malformed after the call (level-4 huge bit or a link to a frame outside the hierarchy)");
     if w.kind == 9 {
@@ -188,9 +199,9 @@ pub fn check_translate_agrees(m: &MappedPageTable<'static, PoolMap>, a: u64) {
     let ta = m.translate_addr(va(a));
     vp!(C01, ta.map(|p| p.as_u64()) == if w.kind == 0 { None } else { Some(w.phys) }, "translate_addr disagrees with the hardware walk");
     // translate_page::<S> succeeds exactly for the size the address is mapped with, and returns the frame
-    let t4 = m.translate_page(Page::<Size4KiB>::containing_address(va(a))).map(|f| f.start_address().as_u64()).ok();
-    let t2 = m.translate_page(Page::<Size2MiB>::containing_address(va(a))).map(|f| f.start_address().as_u64()).ok();
-    let t1 = m.translate_page(Page::<Size1GiB>::containing_address(va(a))).map(|f| f.start_address().as_u64()).ok();
+    let t4 = Mapper::<Size4KiB>::translate_page(m, Page::<Size4KiB>::containing_address(va(a))).map(|f| f.start_address().as_u64()).ok();
+    let t2 = Mapper::<Size2MiB>::translate_page(m, Page::<Size2MiB>::containing_address(va(a))).map(|f| f.start_address().as_u64()).ok();
+    let t1 = Mapper::<Size1GiB>::translate_page(m, Page::<Size1GiB>::containing_address(va(a))).map(|f| f.start_address().as_u64()).ok();
     vp!(C01, t4 == if w.kind == 1 { Some(w.phys & !0xfff) } else { None }, "translate_page<4KiB> disagrees with the hardware walk");
     vp!(C02, w.kind == 2 || t2.is_none(), "translate_page<2MiB> reports success although no 2MiB mapping exists for the page");
     vp!(C01, w.kind != 2 || t2 == Some(w.phys & !0x1f_ffff), "translate_page<2MiB> disagrees with the hardware walk");
@@ -212,7 +223,7 @@ fn on_path(s: &Slot, pre: &PrePath, a: u64, leaf_level: u32) -> Option<u32> {
 }
 
 macro_rules! size_ops {
-    ($m:ident, $S:ty, $LEAF:expr, $KIND:expr) => {
+    ($m:ident, $S:ty, $LEAF:expr, $KIND:expr, $mk:path) => {
         pub mod $m {
             use super::*;
             const LEAF: u32 = $LEAF; // level whose entry maps a page of this size
@@ -277,7 +288,7 @@ macro_rules! size_ops {
                 let leaf_before = if created || huge_parent { 0 } else { pre.ent[(4 - LEAF) as usize] };
                 let alloc_fails = !huge_parent && fail_at != 0 && fail_at <= need;
                 // ---- the call
-                let mut m = mapper();
+                let mut m = $mk();
                 let r = unsafe { m.map_to_with_table_flags(page, frame, PageTableFlags::from_bits_retain(flags), PageTableFlags::from_bits_retain(pflags), &mut alloc) };
                 kani::cover!(true); // the call returns (reachability witness; later obligations may cut the path)
                 // ---- outcome
@@ -327,6 +338,7 @@ macro_rules! size_ops {
                     } else {
                         vp!(C02, same_mapping(&before[j], &after), "a call changed the mapping (frame, size or leaf flags) of another address / a failed call changed a mapping");
                         vp!(C02, (after.eff_w || !before[j].eff_w) && (after.eff_u || !before[j].eff_u), "a call removed effective rights of another address");
+                        vp!(C01, (after.eff_w || !before[j].eff_w) && (after.eff_u || !before[j].eff_u), "the effective rights of an address no longer include the parent flags requested when it was mapped");
                     }
                     if tr_inpage || !in_page(a, p) {
                         check_translate_agrees(&m, p);
@@ -394,7 +406,7 @@ macro_rules! size_ops {
                     j += 1;
                 }
                 let here = hw_walk(a);
-                let mut m = mapper();
+                let mut m = $mk();
                 let r = Mapper::<$S>::unmap(&mut m, page);
                 kani::cover!(true);
                 let ok = match r {
@@ -405,7 +417,7 @@ macro_rules! size_ops {
                         true
                     }
                     Err(UnmapError::PageNotMapped) => {
-                        vp!(C02, here.kind == 0, "unmap reported PageNotMapped for a mapped page");
+                        vp!(C02, here.kind < $KIND, "unmap reported PageNotMapped for a page that is mapped (with this size or inside a larger huge page)");
                         false
                     }
                     Err(UnmapError::ParentEntryHugePage) => {
@@ -468,7 +480,7 @@ macro_rules! size_ops {
                     j += 1;
                 }
                 let here = hw_walk(a);
-                let mut m = mapper();
+                let mut m = $mk();
                 let r = unsafe { Mapper::<$S>::update_flags(&mut m, page, PageTableFlags::from_bits_retain(flags)) };
                 kani::cover!(true);
                 let ok = match r {
@@ -478,7 +490,9 @@ macro_rules! size_ops {
                         true
                     }
                     Err(FlagUpdateError::PageNotMapped) => {
-                        vp!(C02, here.kind == 0, "update_flags reported PageNotMapped for a mapped page");
+                        // "not mapped" = no mapping of this size and not inside a larger one (a table link in the
+                        // slot of a huge size means smaller pages may be mapped below it, but not this page)
+                        vp!(C02, here.kind < $KIND, "update_flags reported PageNotMapped for a page that is mapped (with this size or inside a larger huge page)");
                         false
                     }
                     Err(FlagUpdateError::ParentEntryHugePage) => {
@@ -519,11 +533,27 @@ macro_rules! size_ops {
         }
     };
 }
-size_ops!(s4k, Size4KiB, 1, 1);
-size_ops!(s2m, Size2MiB, 2, 2);
-size_ops!(s1g, Size1GiB, 3, 3);
+size_ops!(s4k, Size4KiB, 1, 1, mapper);
+size_ops!(s2m, Size2MiB, 2, 2, mapper);
+size_ops!(s1g, Size1GiB, 3, 3, mapper);
+// the same obligations for the recursive mapper (CBMC-only environment: S-ptr stub = software MMU)
+size_ops!(r4k, Size4KiB, 1, 1, rmapper);
+size_ops!(r2m, Size2MiB, 2, 2, rmapper);
+size_ops!(r1g, Size1GiB, 3, 3, rmapper);
 
 /// translate family on an arbitrary hierarchy (no modification).
+pub fn translate_only_recursive(inst: Inst) {
+    let sc = build(inst, 0);
+    kani::cover!(true);
+    let m = rmapper();
+    let mut j = 0;
+    while j < 5 {
+        check_translate_agrees(&m, sc.probes[j]);
+        j += 1;
+    }
+    vp!(C09, unsafe { !STRAY_ACCESS }, "translate dereferenced memory that is not a page table of the hierarchy");
+}
+
 pub fn translate_only(inst: Inst) {
     let sc = build(inst, 0);
     kani::cover!(true);
